@@ -140,6 +140,9 @@ func main() {
 			case "funce": // wp kfinish (ext_kfinish.go): counted-loop function whose calls are fields of an environment structure
 				text, err = kfinishGenFuncE(p, e)
 				monadic[e.module] = true
+			case "regionq": // wp k01dec2 (ext_k01dec2.go): region with the abstract matrix operations threaded through
+				text, err = k01dec2GenRegion(p, e)
+				monadic[e.module] = true
 			default:
 				err = fmt.Errorf("unknown kind %s", e.kind)
 			}
